@@ -242,7 +242,7 @@ def main():
             "guard": "cfg(simple_dns_verif)",
             "enable": "rustflags --cfg simple_dns_verif, set in /verif/harness/.cargo/config.toml; the harness path-depends on /repo/simple-dns and /repo/simple-mdns so every check rebuilds from /repo's working tree",
             "baseline_off_cmd": "cd /repo && cargo nextest run --workspace --no-fail-fast --offline",
-            "source_commits": ["3c6170d", "559c3ac", "d33084c"],
+            "source_commits": ["3c6170d", "559c3ac", "d33084c", "a3f006f"],
             "add_only": True,
         },
         "engines": [
